@@ -9,6 +9,7 @@ CFG = dict(
         "Inst.gen_guards: both Pratt loops carry the depth guard and every recursion cycle of parser.rs passes through a guarded entry point",
         "Inst.gen_shape: current_binary_op is the expected token map in both files; unary operands, LIKE patterns and BETWEEN bounds are parsed at the prefix power",
         "Inst.gen_doc_agrees_expr / gen_doc_agrees_parser: BinaryOp::precedence + is_left_assoc induce exactly the grouping of the tables",
+        "Inst.gen_cache_transparent: the query-cache key is the statement text as written (injective on statements) and every write statement invalidates the cache on success and on error, unconditionally",
         "Inst.gen_docs_consistent: expr.rs header comment and docs/book binding-power table state the same levels, powers and associativity",
     ],
     crate="nvh_c15",
